@@ -117,6 +117,11 @@ def target_case(draw):
                      # ... or by an expression ("A u - K u") u whose result is the value (zero included); K or None
                      "by_expr": draw(st.sampled_from(["1", "2.5", "100"] if kind == "float" else ["1", "7", "100"]))
                      if kind in ("float", "int", "bool") and val != "none" and draw(st.integers(0, 3)) == 0 else None})
+        # ... or by a registered function that returns it (False and 0 included); unit-less nodes only
+        mods[-1]["by_fn"] = bool(kind in ("bool", "int", "float") and dim is None and val != "none" and not mods[-1]["via_ref"]
+                                 and not mods[-1]["by_expr"] and unit is None and draw(st.integers(0, 4)) == 0)
+        if kind == "int" and mods[-1]["by_fn"] and abs(int(val)) > 2 ** 52:
+            mods[-1]["by_fn"] = False
         if mods[-1]["by_expr"] and (mods[-1]["via_ref"] or unit == "%" or (kind == "int" and abs(int(mods[-1]["val"])) > 2 ** 52)):
             mods[-1]["by_expr"] = None
     fail = draw(st.sampled_from([None] * 6 + ["type", "literal", "dimension", "constant", "undeclared"]))
@@ -144,6 +149,8 @@ def target_case(draw):
         fail = "type"
     return {"kind": kind, "type": tkw, "groups": groups, "name": tname, "dim": dim, "unit": dunit, "declared": declared,
             "first": first, "mods": mods, "custom": use_custom, "fail": fail,
+            "first_by_fn": kind in ("bool", "int", "float") and dim is None and not declared and first not in (None, "none")
+                           and not (kind == "int" and abs(int(first)) > 2 ** 52) and draw(st.integers(0, 2)) == 0,
             "fail_at": fail_at, "const_after_mod": const_after_mod, "lookalike": draw(st.booleans()), "indent": draw(st.integers(1, 3)),
             # two-stage parsing: the first `split` modifications are parsed with the definition, the rest on top of
             # the returned environment (DIP(env)); 0 = everything in one parse
@@ -151,8 +158,10 @@ def target_case(draw):
             # an earlier, unrelated parse in the same process that defined the custom unit of the same name differently
             "prelude": draw(st.sampled_from([None, "7", "0.5"])) if use_custom else None,
             # the definition's value may come from a SLICED reference to a helper array; later assignments are plain
+            # (an ARRAY cannot hold an integer beyond 2**63-1 - numpy's C long - although a scalar node can: noticed, not
+            # this property's business; the helper array is not used for such values)
             "first_by_slice": (not declared) and first != "none" and kind in ("float", "int", "farray") and fail is None
-                              and draw(st.integers(0, 4)) == 0}
+                              and not (kind == "int" and abs(int(first)) >= 2 ** 63) and draw(st.integers(0, 4)) == 0}
 
 
 SAME_SYMBOLS = {"m/s": "m*s", "km/h": "km*h", "cm/s": "cm*s", "m*s-1": "m*s", "J": "J2", "kg*m2/s2": "kg*m2/s"}
@@ -185,9 +194,19 @@ def int_array_case(draw):
             "how": draw(st.sampled_from(["direct", "by_reference", "typed"])), "declared": draw(st.booleans())}
 
 
+@st.composite
+def function_value_case(draw):
+    """a node whose value is what a registered function returns - at its definition, or as its only / last assignment;
+    False, 0 and 0.0 are values like any other"""
+    kind = draw(st.sampled_from(["bool", "bool", "int", "float"]))
+    val = draw(st.sampled_from({"bool": [False, False, True], "int": [0, 0, 3, -7], "float": [0.0, 0.0, 2.5, -1.5]}[kind]))
+    return {"fnval": True, "type": kind, "value": val, "how": draw(st.sampled_from(["definition", "definition", "declared_then_assigned",
+                                                                                   "reassigned_typed", "reassigned_untyped"]))}
+
+
 def strategies(tier):
     return {"target": (target_case(), 3000, 60000), "lookalike": (lookalike_case(), 150, 2500),
-            "int_array": (int_array_case(), 150, 2500)}
+            "int_array": (int_array_case(), 150, 2500), "function_value": (function_value_case(), 120, 2000)}
 
 
 # --------------------------------------------------------------------------- rendering and model
@@ -221,6 +240,8 @@ def render_stages(case):
         else:
             lines.insert(1 if not case["custom"] else 2, f"hsrc {case['type']}[3] = [9,{case['first']},8]{u_}")
             lines.append(head + " = {?hsrc}[1]")
+    elif case.get("first_by_fn"):
+        lines.append(head + " = (fnfirst)")         # the definition's value is what a registered function returns
     else:
         lines.append(head + f" = {case['first']}" + (f" {case['unit']}" if case["unit"] else ""))
     cam = case.get("const_after_mod")
@@ -264,6 +285,8 @@ def render_stages(case):
         rhs = f"= {val}" + (f" {unit}" if unit else "")
         if m.get("by_expr") and not (case["fail"] is not None and i == case["fail_at"]):
             rhs = f'= ("{_expr(case["kind"], m)[0]}")' + (f" {unit}" if unit else "")
+        if m.get("by_fn") and not (case["fail"] is not None and i == case["fail_at"]):
+            rhs = f"= (fn{i})"
         if m.get("via_ref") and not (case["fail"] is not None and i == case["fail_at"]):
             lines.append(f"helper{i} {case['type']} = {val}" + (f" {unit}" if unit else ""))
             rhs = f"= {{?helper{i}}}"
@@ -381,9 +404,36 @@ def _check_int_array(case, v):
         return v.fail("value", f"x0 = {vals!r} {case['small']}, last assignment gives {want!r} {case['small']}:\n{text}")
 
 
+def _check_function_value(case, v):
+    from scinumtools.dip import DIP, Format
+    t, val, how = case["type"], case["value"], case["how"]
+    other = {"bool": "true", "int": "9", "float": "9.5"}[t]
+    L = {"definition": [f"x0 {t} = (give)"], "declared_then_assigned": [f"x0 {t}", "x0 = (give)"],
+         "reassigned_typed": [f"x0 {t} = {other}", f"x0 {t} = (give)"], "reassigned_untyped": [f"x0 {t} = {other}", "x0 = (give)"]}[how]
+    text = "\n".join(L + ["after int = 1"])
+    v.info = {"text": text + f"   [give() returns {val!r}]"}
+    v.nt(True)
+    v.label("value_from_function", how, "falsy" if not val else "truthy")
+    try:
+        with DIP(name=f"c14_{next(_uid)}") as p:
+            p.add_function("give", lambda data, _v=val: _v)
+            p.add_string(text)
+            env = p.parse()
+    except Exception as e:
+        return v.fail("parse-raised", f"raised {e!r} for:\n{text}\n[give() returns {val!r}]")
+    try:
+        got = D.to_py(env.data(Format.TUPLE)["x0"])
+    except Exception as e:
+        return v.fail("unreadable", f"parse() returned an environment whose data() raises {e!r}:\n{text}\n[give() returns {val!r}]")
+    if got != val or type(got) is not type(val):
+        return v.fail("value", f"x0 = {got!r}, the function returns {val!r}:\n{text}")
+
+
 def _check(case, v):
     if case.get("iarr"):
         return _check_int_array(case, v)
+    if case.get("fnval"):
+        return _check_function_value(case, v)
     from scinumtools.dip import DIP, Format
     stage1, stage2 = render_stages(case)
     text = stage1 if stage2 is None else stage1 + "\n# ---- parsed on top of the returned environment ----\n" + stage2
@@ -399,8 +449,14 @@ def _check(case, v):
         except Exception as e:
             return v.fail("parse-raised", f"the earlier parse raised {e!r}:\n{pre}")
         v.label("earlier_parse_defined_the_unit_differently")
+    fns = {f"fn{i}": _py(case["kind"], m["val"]) for i, m in enumerate(case["mods"]) if m.get("by_fn")}
+    if case.get("first_by_fn") and not case.get("first_by_slice"):
+        fns["fnfirst"] = _py(case["kind"], case["first"])
+        v.label("definition_by_function")
     try:
         with DIP(name=f"c14_{next(_uid)}") as p:
+            for fname, fval in fns.items():
+                p.add_function(fname, (lambda data, _v=fval: _v))
             p.add_string(stage1)
             env = p.parse()
         if stage2 is not None:
@@ -494,6 +550,8 @@ def _check(case, v):
     if case.get("first_by_slice"):
         v.label("definition_by_sliced_reference")
     for m in case["mods"]:
+        if m.get("by_fn"):
+            v.label("value_by_function", "function_returns_zero_or_false" if not _py(case["kind"], m["val"]) else "function_returns_truthy")
         if m.get("by_expr"):
             v.label("value_by_expression_typed" if m["typed"] else "value_by_expression_untyped")
             if not _expr(case["kind"], m)[1]:
